@@ -295,10 +295,13 @@ def runner_forwards(chk):
             flat = list(ct[2]) + [v for _k, v in ct[3]]
             inner = []
             for x in flat:
-                if x[0] == "tuple":
+                if x[0] in ("tuple", "list"):
                     inner.extend(x[1])
+                if x[0] == "dict":
+                    inner.extend(v for _k, v in x[1])
                 if x[0] == "call":
                     inner.extend(x[2])
+                    inner.extend(v for _k, v in x[3])
             if pay not in flat + inner:
                 return None
             if f[0] == "attr" and f[2] in ("call_soon_threadsafe", "create_task", "start_soon", "send_nowait", "send"):
@@ -320,7 +323,8 @@ def runner_forwards(chk):
                     return [("raise", first)]
                 return None
 
-            outs = Interp(prog, reg, call_hook=hook).run()
+            helper = lambda f, ct, cls=cls, reg=reg, facts=facts: f.cls is not None and f is not reg and not f.is_async and f.name not in facts["monitors"] and f.name not in ("run_payload", "register_payload", "stop", "aclose") and ct[1][0] == "attr" and ct[1][1] == SELF  # noqa: E731
+            outs = Interp(prog, reg, call_hook=hook, inline=helper).run()
             chk.count(len(outs))
             for o in outs:
                 if o.kind == "raise":
@@ -341,7 +345,7 @@ def runner_forwards(chk):
         # intermediate hops and the monitor
         monitors, bad = c01.payload_flow(chk, cls)
         for mname in monitors:
-            m = prog.lookup_method(cls, mname)
+            m = common.monitor_fi(prog, cls, mname)
             pp = None
             for n in ast.walk(m.node):
                 if isinstance(n, ast.Call) and isinstance(n.func, ast.Name) and n.func.id in m.params():
@@ -729,14 +733,25 @@ def sweep_rules(chk):
         return
     sw = prog.lookup_method(cls, sweep_name)
     loop = next((n for n in ast.walk(sw.node) if isinstance(n, ast.While)), None)
+    loop_fi = sw
+    if loop is None:
+        # the polling loop may live in an own coroutine the sweep awaits
+        for n in ast.walk(sw.node):
+            if isinstance(n, ast.Await) and isinstance(n.value, ast.Call) and isinstance(n.value.func, ast.Attribute) and util.dotted(n.value.func.value) == "self":
+                h = prog.lookup_method(cls, n.value.func.attr)
+                hl = next((x for x in ast.walk(h.node) if isinstance(x, ast.While)), None) if h is not None and h.is_async else None
+                if hl is not None:
+                    loop, loop_fi = hl, h
     step_name = None
     if loop is None:
         chk.bad(rule, sw.qual, "the sweep does not loop: services created after start are never started", node=sw.node, stmt="no-loop")
         return
-    it = Interp(prog, sw, unroll=1)
+    it = Interp(prog, loop_fi, unroll=1)
     for o in it.exec_block(loop.body, Path()):
         evs = o.path.events
-        steps = [(i, e[1]) for i, e in enumerate(evs) if e[0] == "call" and e[1][1][0] == "attr" and e[1][1][1] == SELF and e[1][1][2] != sweep_name]
+        if o.kind not in ("normal", "continue"):
+            continue  # the cycle that leaves the loop (shutdown requested) need not adopt
+        steps = [(i, e[1]) for i, e in enumerate(evs) if e[0] == "call" and e[1][1][0] == "attr" and e[1][1][1] == SELF and e[1][1][2] not in (sweep_name, loop_fi.name)]
         sleeps = [i for i, e in enumerate(evs) if e[0] == "call" and e[1][1] == ("glob", "ext:trio.sleep")]
         chk.count()
         if len(steps) != 1 or not sleeps or steps[0][0] > sleeps[0]:
@@ -861,6 +876,10 @@ def channel_capacity(chk):
                             cap = kw.value
                     if cap is None and node.args:
                         cap = node.args[0]
+                    if isinstance(cap, (ast.Name, ast.Attribute)):
+                        mc = prog.module_constant(prog.resolve(cls.module, cap))
+                        if mc is not None:
+                            cap = mc[1]  # a named module-level constant
                     txt = util.unparse(cap) if cap is not None else None
                     if txt in ("float('inf')", 'float("inf")', "math.inf", "inf", "infinity"):
                         chk.ok(rule, fi.qual, "the submit channel is unbounded: send_nowait never raises WouldBlock and a cross-thread send never waits for capacity", node=node)
